@@ -1029,6 +1029,15 @@ def evalMCases (g : GEnv) (phs : List (Nat × Bytes × Run)) (body : MsgParts) :
   | .cons _ rest, i + 1, ctx, st => evalMCases g phs body rest i ctx st
 end
 
+/-- `if defaultCase != nil { s.walkBlock(defaultCase.Body) }` after the case loop of a {switch} -/
+def runDefault : Option Run → Run
+  | some d, ctx, st => d ctx st
+  | none, ctx, st => ⟨.ok, ctx, st⟩
+
+/-- `if len(caseNode.Values) == 0 && defaultCase == nil { defaultCase = caseNode }` -/
+def pickDefault (values : List Expr) (body : Run) (dflt : Option Run) : Option Run :=
+  if values.isEmpty && dflt.isNone then some body else dflt
+
 /-- walkBlock: push, walk, pop -/
 def walkBlockOf (body : Run) : Run := fun ctx st =>
   let (ctx1, st1) := push ctx st
@@ -1132,7 +1141,7 @@ def execCmd : Cmd → Run
   | .switch _ value cases, ctx, st =>
     match evalIn g value ctx st with
     | none => ⟨.err, ctx, atNode st (evalInPos g value ctx st)⟩
-    | some (sv, st1) => execCases cases sv ctx st1
+    | some (sv, st1) => execCases cases none sv ctx st1
   | .call _ name allData data params, ctx, st =>
     -- evalCall
     match Registry.lookup g.reg name with
@@ -1193,15 +1202,16 @@ def execConds : CondList → Run
       match evalIn g c ctx st with
       | none => ⟨.err, ctx, atNode st (evalInPos g c ctx st)⟩
       | some (v, st1) => if v.truthy then walkBlockOf (execBody body) ctx st1 else execConds rest ctx st1
-def execCases : CaseList → Value → Run
-  | .nil, _, ctx, st => ⟨.ok, ctx, st⟩
-  | .cons _ values body rest, sv, ctx, st =>
+/-- the case loop of a {switch}: the first case one of whose values equals the switch value runs and ends
+    the search; the FIRST value-less case (`defaultCase`) is remembered and runs only when the loop ends
+    without a match — the cases written after it are still tried, their values evaluated in order -/
+def execCases : CaseList → Option Run → Value → Run
+  | .nil, dflt, _, ctx, st => runDefault dflt ctx st
+  | .cons _ values body rest, dflt, sv, ctx, st =>
     match matchCase g ctx sv values st with
     | none => ⟨.err, ctx, atNode st (matchCasePos g ctx sv values st)⟩
     | some (true, st1) => walkBlockOf (execBody body) ctx st1
-    | some (false, st1) =>
-      if values.isEmpty then walkBlockOf (execBody body) ctx st1       -- default / last case
-      else execCases rest sv ctx st1
+    | some (false, st1) => execCases rest (pickDefault values (walkBlockOf (execBody body)) dflt) sv ctx st1
 /-- the `for _, param := range node.Params` loop: values are evaluated (content rendered) in the
     CALLER's context and bound in the top frame of `callData` -/
 def execParams : ParamList → Scope → Run
